@@ -122,7 +122,7 @@ Print Assumptions done_only_after_every_import.
    prefixes and the widths of the length fields that enter the size estimate) *)
 Theorem gen_consts_expected :
   max_proof_depth = 128 /\ proof_depth_guard_is_gt = true /\ split_iters = 10 /\
-  seq_continue_is_lt = true /\ chunk_proof_version = 0 /\
+  seq_continue_is_lt = true /\ par_break_is_ge_and_lastleaf = true /\ chunk_proof_version = 0 /\
   (prefix_leaf, prefix_internal, prefix_nil) = (0, 1, 2) /\ depth_size = 2 /\ value_length_size = 4.
 Proof. exact Main.gen_consts_expected_l. Qed.
 Print Assumptions gen_consts_expected.
